@@ -1,0 +1,61 @@
+//go:build verif
+
+// Contracts for the generated util package (template litConvSrc); keyed by the functions of the expanded package.
+// Comment-only file, compiled only with -tags=verif.
+
+package golang
+
+//@ package util
+//@
+//@ # ---- Go's rune-literal value, transcribed from the Go specification (Rune literals) ----
+//@ spec ishex(c int) bool = ('0' <= c && c <= '9') || ('a' <= c && c <= 'f') || ('A' <= c && c <= 'F')
+//@ spec hexv(c int) int = ite('0' <= c && c <= '9', c - '0', ite('a' <= c && c <= 'f', c - 'a' + 10, c - 'A' + 10))
+//@ spec isoct(c int) bool = '0' <= c && c <= '7'
+//@ spec validCodePoint(v int) bool = 0 <= v && v <= 0x10FFFF && !(0xD800 <= v && v < 0xE000)
+//@ spec isNamed(c int) bool = c == 'a' || c == 'b' || c == 'f' || c == 'n' || c == 'r' || c == 't' || c == 'v' || c == '\\' || c == '\''
+//@ spec namedVal(c int) int = ite(c == 'a', 7, ite(c == 'b', 8, ite(c == 'f', 12, ite(c == 'n', 10, ite(c == 'r', 13, ite(c == 't', 9, ite(c == 'v', 11, ite(c == '\\', 92, 39))))))))
+//@ spec octVal(lit []byte) int = 64*(lit[2]-'0') + 8*(lit[3]-'0') + (lit[4]-'0')
+//@ spec xVal(lit []byte) int = 16*hexv(lit[3]) + hexv(lit[4])
+//@ spec u4Val(lit []byte) int = 4096*hexv(lit[3]) + 256*hexv(lit[4]) + 16*hexv(lit[5]) + hexv(lit[6])
+//@ spec u8Val(lit []byte) int = 268435456*hexv(lit[3]) + 16777216*hexv(lit[4]) + 1048576*hexv(lit[5]) + 65536*hexv(lit[6]) + 4096*hexv(lit[7]) + 256*hexv(lit[8]) + 16*hexv(lit[9]) + hexv(lit[10])
+//@ spec escNamed(lit []byte) bool = len(lit) == 4 && isNamed(lit[2])
+//@ spec escOct(lit []byte) bool = len(lit) == 6 && isoct(lit[2]) && isoct(lit[3]) && isoct(lit[4]) && octVal(lit) <= 255
+//@ spec escX(lit []byte) bool = len(lit) == 6 && lit[2] == 'x' && ishex(lit[3]) && ishex(lit[4])
+//@ spec escU4(lit []byte) bool = len(lit) == 8 && lit[2] == 'u' && ishex(lit[3]) && ishex(lit[4]) && ishex(lit[5]) && ishex(lit[6]) && validCodePoint(u4Val(lit))
+//@ spec escU8(lit []byte) bool = len(lit) == 12 && lit[2] == 'U' && ishex(lit[3]) && ishex(lit[4]) && ishex(lit[5]) && ishex(lit[6]) && ishex(lit[7]) && ishex(lit[8]) && ishex(lit[9]) && ishex(lit[10]) && validCodePoint(u8Val(lit))
+//@ spec validEscape(lit []byte) bool = len(lit) >= 4 && lit[0] == '\'' && lit[1] == '\\' && lit[len(lit)-1] == '\'' && (escNamed(lit) || escOct(lit) || escX(lit) || escU4(lit) || escU8(lit))
+//@ spec escapeVal(lit []byte) int = ite(escNamed(lit), namedVal(lit[2]), ite(escOct(lit), octVal(lit), ite(escX(lit), xVal(lit), ite(escU4(lit), u4Val(lit), u8Val(lit)))))
+//@ # a plain (unescaped) rune literal: exactly one UTF-8 encoded character between the quotes
+//@ spec validPlain(lit []byte) bool = len(lit) >= 3 && lit[0] == '\'' && lit[len(lit)-1] == '\'' && lit[1] != '\\' && DecSize(view(lit[1:]), len(lit)-1) == len(lit)-2
+//@
+//@ func digitVal
+//@   prop C20
+//@   ensures [hex] imp(ishex(ch), result == hexv(ch))
+//@   ensures [nonhex] imp(!ishex(ch), result == 16)
+//@   assigns nothing
+//@
+//@ func escapeCharVal
+//@   prop C20
+//@   requires [valid] validEscape(lit)
+//@   ensures [value] result == escapeVal(lit)
+//@   ensures [range] validCodePoint(result)
+//@   assigns nothing
+//@   loop 1
+//@     unroll 8
+//@
+//@ func RuneValue
+//@   prop C20 C13
+//@   requires [valid] validEscape(lit) || validPlain(lit)
+//@   ensures [escape] imp(lit[1] == '\\', result == escapeVal(lit))
+//@   ensures [plain] imp(lit[1] != '\\', result == DecR(view(lit[1:]), len(lit)-1))
+//@   assigns nothing
+//@
+//@ func IntValue
+//@   prop C20
+//@   ensures [strconv] result0 == ParseIntV(str(lit), 10, 64) && result1 == ParseIntE(str(lit), 10, 64)
+//@   assigns nothing
+//@
+//@ func UintValue
+//@   prop C20
+//@   ensures [strconv] result0 == ParseUintV(str(lit), 10, 64) && result1 == ParseUintE(str(lit), 10, 64)
+//@   assigns nothing
